@@ -46,7 +46,7 @@ func init() {
 		Rule: "each case = one random history A of 40-70 operations (SetBalance, SetValue/DeleteValue on keys with shared prefixes, contract init/owner/flags/deploy/accept/reject/activate/SetCode, GetSnapshot, Reset to a random earlier snapshot) over 6 accounts, executed on the real WorldState in lock-step with a map model and interleaved with PRNG-chosen regime actions (ClearCache, Flush of a snapshot, flush+reload by hash, WorldStateFromSnapshot, observation through GetAccountState/GetAccountSnapshot/read-only state); run C = the same operations under a different regime and DB (MapDB or goleveldb dir); run B = direct construction of A's final contents in another order with touch-and-revert detours. Non-trivial = distinct run (hash of its full action log) in which a snapshot was re-observed after a later mutation, a Reset happened and at least one of ClearCache/Flush/reload happened.",
 		MinNonTrivial: func(t string) int {
 			if t == ev.Thorough {
-				return 12000
+				return 40000
 			}
 			return 400
 		},
